@@ -686,10 +686,9 @@ func checkMain(a map[string]string) int {
 		childBin = self
 	}
 
-	childTimeout = budget + 150*time.Second
-	if tier == "quick" && childTimeout > 240*time.Second {
-		childTimeout = 240 * time.Second
-	}
+	// generous: a batch that is merely slow on a loaded machine must never be
+	// mistaken for a wedged one
+	childTimeout = budget + 600*time.Second
 	total := NewStats()
 	var mu sync.Mutex
 	var firstViol *BatchResult
